@@ -14,6 +14,8 @@ def rp_cuts_packet(ev):
     bounds = {0}
     t = 0
     for p in ev["in"]:
+        if p["cat"] != 0:      # a refused packet adds no frames
+            continue
         t += p["m"]
         bounds.add(t)
     return ev["b"] not in bounds or ev["e"] not in bounds
@@ -114,7 +116,7 @@ def handle_rejection(ctx, exe, cmd, line, findings):
                 return
         ctx.violation("repacketizer does not carry each extension to the output frame that holds its audio frame "
                       "(range [%d,%d) over inputs of %s frames, %s, ret=%d; driver %s): %s" % (
-                          ev["b"], ev["e"], [p["m"] for p in ev["in"]],
+                          ev["b"], ev["e"], [p["m"] for p in ev["in"] if p["cat"] == 0],
                           "cuts an input packet" if rp_cuts_packet(ev) else "packet-aligned", ev["r"], cmd, line[:700]), replay_src=rp)
         return
     what = {"parse": "parse/count/iterate disagree with the extension format (Ext!ParseAll)",
